@@ -14,6 +14,12 @@ PROPS = {
         "trusted": ["modelled, not verified: Go's `for range string` rune decoding (a non-ASCII byte never yields a digit rune), strings.Builder"],
         "assumptions": ["strings are compared as UTF-8 byte sequences"],
     },
+    "C16": {
+        "streams": [{"name": "order", "env": {"TZ": "UTC"}}],
+        "rule": "order stream: every adjacent-day pair (both directions, and equal) over six two-year spans, random date pairs incl. same-year and same-month; HH:mm: 13 edge values against all 1441 values both ways (thorough: all 1441^2 pairs) and random ints beyond the clock domain; date-time/instant pairs straddling second boundaries (and before 1970 for the model only); the SetTimeProfile segment guard through the hooked driver with the send counter.",
+        "trusted": ["modelled, not verified: time.Time.Year/Month/Day return the civil fields of the value (C13 covers how values get their fields), time.UnixMilli"],
+        "assumptions": ["the six comparison methods and DateTime.Before are hand-modelled (nested ifs copied from the source) and tied by correspondence only"],
+    },
 }
 
 NOT_APPLICABLE = {}
@@ -22,5 +28,9 @@ MANIFEST_TEXT = {
     "C12": {
         "text": "Theorems for all strings and all byte slices of any length: the Go loops, run with the switch tables regenerated from bcd.go, equal pack∘pad / unpack, reject exactly the non-digit runes / nibbles > 9, and are mutual inverses. Proof is the right level: the property is a pure ∀-statement over unbounded strings.",
         "note": "Trusted: Lean kernel; translator's reading of the two switch statements and the two size/index expressions; correspondence (exhaustive short strings + random) for the loop structure; Go's rune decoding is modelled (non-ASCII bytes never decode to a digit).",
+    },
+    "C16": {
+        "text": "Theorems for all integer field values: Before = strict lexicographic order, After = its mirror image, Equals = field equality, exactly one of the three holds, transitivity, irreflexivity; DateTime.Before = whole-second comparison for instants from 1970 (with the counterexample before 1970 that motivates the restriction); the SetTimeProfile segment guard accepts iff end is not before start.",
+        "note": "Trusted: Lean kernel; the comparison functions are hand-modelled as the nested ifs of the source and tied by the correspondence run (adjacent days, boundaries, all/edge HH:mm pairs, random); time.Time field accessors assumed.",
     },
 }
